@@ -139,11 +139,33 @@ def file_roundtrip(points, compacts, dialect_name, ctx, case):
         kw = DIALECTS[dialect_name]
         db = TinyFlux(path, **kw)
         try:
-            for p, c in zip(points, compacts):
+            if len(points) >= 2 and len(points) % 2 == 0 and len(set(compacts)) == 1:
+                # written in one insert_multiple call fed by a generator that re-fills and yields one Point object again and again:
+                # every row must hold what the object held when it was yielded
+                def recycled():
+                    one = None
+                    for p in points:
+                        f = gen.to_point(p)
+                        if one is None:
+                            one = f
+                        else:
+                            one.time, one.measurement = f.time, f.measurement
+                            one.tags.clear()
+                            one.tags.update(f.tags)
+                            one.fields.clear()
+                            one.fields.update(f.fields)
+                        yield one
+
                 try:
-                    db.insert(gen.to_point(p), compact_key_prefixes=c)
+                    db.insert_multiple(recycled(), compact_key_prefixes=compacts[0])
                 except Exception as e:
-                    raise Violation("roundtrip", case, "file/%s: insert of %r raised %r" % (dialect_name, p, e))
+                    raise Violation("roundtrip", case, "file/%s: insert_multiple of %d points raised %r" % (dialect_name, len(points), e))
+            else:
+                for p, c in zip(points, compacts):
+                    try:
+                        db.insert(gen.to_point(p), compact_key_prefixes=c)
+                    except Exception as e:
+                        raise Violation("roundtrip", case, "file/%s: insert of %r raised %r" % (dialect_name, p, e))
             if case.get("rewrite"):
                 # a rewrite of the file (remove of a sentinel point) must not disturb the stored points either,
                 # neither for the live instance nor for a fresh one
